@@ -15,6 +15,8 @@ mod schemaread;
 mod intro;
 mod iofault;
 mod crypt;
+mod abi;
+mod abicall;
 
 use std::collections::BTreeMap;
 use std::io::Write;
@@ -109,6 +111,79 @@ fn main() {
                 for &v in &e.versions {
                     writeln!(out, "(packed @{} {})\t(ok {})", e.name, v, (e.packed)(v)).unwrap();
                 }
+            }
+        }
+        // C09/C10: calls between interface versions of the evolution families
+        "abicall" => {
+            let mut stats: BTreeMap<String, u64> = BTreeMap::new();
+            let pairs = zoo_gen::abi_pairs();
+            for p in pairs.iter() {
+                if let Some(f) = &a.filter {
+                    if !p.fam.contains(f.as_str()) {
+                        continue;
+                    }
+                }
+                // in a forked child: a panic that reaches an `extern "C"` frame cannot unwind and aborts the process
+                let seed = name_seed(a.seed, p.fam, (p.i * 16 + p.j) as u64);
+                let cases = a.cases;
+                let run = p.run;
+                let report = isolated(|| {
+                    let mut r = Rng::new(seed);
+                    let mut lines = Vec::new();
+                    for _ in 0..cases {
+                        lines.extend(run(&mut r));
+                    }
+                    lines.join("\n")
+                });
+                if report.starts_with("(abort") {
+                    writeln!(out, "!C09 call-aborts-process fam={} caller={} impl={} got={}", p.fam, p.i, p.j, report).unwrap();
+                    continue;
+                }
+                for l in report.split('\n') {
+                    if let Some(k) = l.strip_prefix("#stat ") {
+                        let (k, v) = k.rsplit_once(' ').unwrap();
+                        *stats.entry(k.to_string()).or_default() += v.parse::<u64>().unwrap();
+                    } else if !l.is_empty() {
+                        writeln!(out, "{}", l).unwrap();
+                    }
+                }
+            }
+            for (k, v) in stats {
+                writeln!(out, "#stat {} {}", k, v).unwrap();
+            }
+        }
+        // C10/C11: connection analysis on run-time definition families; C15: the compatibility ledger
+        "abiconn" | "ledger" => {
+            let mut stats: BTreeMap<String, u64> = BTreeMap::new();
+            let shard = a.shard.map(|(k, _)| k).unwrap_or(0) as u64;
+            let mut r = Rng::new(name_seed(a.seed, &a.cmd, 10 + shard));
+            let mut left = a.cases;
+            while left > 0 {
+                let n = left.min(abi::NSLOTS);
+                left -= n;
+                // templates are cached per slot for the life of a process: every batch in its own child
+                let seed = r.next();
+                let is_conn = a.cmd == "abiconn";
+                let report = isolated(|| {
+                    let mut rr = Rng::new(seed);
+                    let lines = if is_conn { abi::connect_cases(&mut rr, n) } else { abi::ledger_cases(&mut rr, n) };
+                    lines.join("\n")
+                });
+                if report.starts_with("(abort") {
+                    writeln!(out, "!{} batch-aborted seed={} got={}", if is_conn { "C10" } else { "C15" }, seed, report).unwrap();
+                    continue;
+                }
+                for l in report.split('\n') {
+                    if let Some(k) = l.strip_prefix("#stat ") {
+                        let (k, v) = k.rsplit_once(' ').unwrap();
+                        *stats.entry(k.to_string()).or_default() += v.parse::<u64>().unwrap();
+                    } else if !l.is_empty() {
+                        writeln!(out, "{}", l).unwrap();
+                    }
+                }
+            }
+            for (k, v) in stats {
+                writeln!(out, "#stat {} {}", k, v).unwrap();
             }
         }
         // C14: encrypted files, mutated
